@@ -31,7 +31,7 @@ SIZES = {
 
 def plan(tier, seed):
     p = SIZES[tier]["parts"]
-    return [{"part": i, "parts": p, "tier": tier, "_name": f"part-{i}"} for i in range(p)] + [{"kind": "contracts", "tier": tier, "_name": "contracts"}]
+    return [{"part": i, "parts": p, "tier": tier, "_name": f"part-{i}"} for i in range(p)] + [{"kind": "contracts", "tier": tier, "_name": "contracts"}, {"kind": "shared", "tier": tier, "_name": "shared-object"}]
 
 
 def rand_bic(rng, cc=None, n=None, strict=False):
@@ -43,11 +43,61 @@ def rand_bic(rng, cc=None, n=None, strict=False):
     return party + cc + loc + br
 
 
+def run_shared(shard, out_base):
+    """One unvalidated BIC object validated by several threads at once, each call under its own mode: every
+    call is judged by the oracle for *its* mode (1 µs switch interval; the systematic exploration of this
+    situation is C14's, this is the stress version on the texts where the two modes disagree)."""
+    import sys  # noqa: PLC0415
+    import threading  # noqa: PLC0415
+
+    mon = Mon("C04")
+    S = judge.lib()
+    rng = env.rng("C04", "shared")
+    texts = ["1234DEWW", "A1B2DEFF", "9ZZ9FRPPXXX", "DEUTDEFF", "DEUTDEFF500", "DEUTDEF", "DEUTXXFF"] + [rand_bic(rng) for _ in range(12)]
+    objs = [(t, S.BIC(t, allow_invalid=True), {m: R.expect_bic(t, m).verdict for m in (False, True)}) for t in texts]
+    n_threads, per = 6, (1500 if shard["tier"] == "quick" else 40000)
+    bad, done = [], [0] * n_threads
+    old = sys.getswitchinterval()
+    sys.setswitchinterval(1e-6)
+    start = threading.Barrier(n_threads)
+
+    def body(k):
+        r = env.rng("C04", "shared", k)
+        start.wait()
+        for i in range(per):
+            t, o, want = objs[(i + k) % len(objs)] if i % 3 else r.choice(objs)
+            strict = bool((i + k) % 2)
+            try:
+                got = R.ACCEPT if o.validate(enforce_swift_compliance=strict) is True else "returned-non-true"
+            except Exception as e:  # noqa: BLE001
+                got = R.REJECT if judge.is_lib_exc(e) else "escape:" + type(e).__name__
+            done[k] += 1
+            if want[strict] != R.DONT_CARE and got != want[strict]:
+                bad.append((t, strict, want[strict], got))
+
+    ts = [threading.Thread(target=body, args=(k,), daemon=True) for k in range(n_threads)]
+    for t_ in ts:
+        t_.start()
+    for t_ in ts:
+        t_.join(600)
+    sys.setswitchinterval(old)
+    mon.ev(sum(done))
+    mon.tally("shared_object_validations_under_threads", sum(done))
+    for t, _, want in objs:
+        mon.distinct(("shared", t, tuple(sorted(want.items()))))
+    for t, strict, want, got in bad[:4]:
+        mon.viol("shared_object_validated_under_threads_gets_verdict_of_other_mode", {"text": t, "enforce_swift_compliance": strict, "threads": n_threads}, want, got)
+    mon.sample({"shared_object": texts[0], "threads": n_threads, "calls": sum(done)})
+    return mon.result(out_base)
+
+
 def run_shard(shard, out_base):
     if shard.get("kind") == "contracts":
         from vf import suite  # noqa: PLC0415
 
         return suite.run_contract_shard("C04", out_base)
+    if shard.get("kind") == "shared":
+        return run_shared(shard, out_base)
     mon = Mon("C04")
     judge.lib()
     tier, part, parts = shard["tier"], shard["part"], shard["parts"]
